@@ -38,6 +38,53 @@ func inRangeFns(p *core.Prog) []*ssa.Function {
 	return out
 }
 
+// inRangeWrappers: module functions that do nothing but apply the in-range helper to (the node's
+// own id, the store's current radius, their own parameter) - e.g. (*PortalProtocol).InRange. A
+// call of such a wrapper is a call of the helper with the operands the rule demands.
+func inRangeWrappers(p *core.Prog) []*ssa.Function {
+	helpers := inRangeFns(p)
+	var out []*ssa.Function
+	for _, fn := range p.ModuleFuncs() {
+		if containsFn(helpers, fn) || fn.Signature.Results().Len() != 1 || len(fn.Blocks) != 1 {
+			continue
+		}
+		rets := core.Returns(fn)
+		if len(rets) != 1 {
+			continue
+		}
+		call, ok := rets[0].Results[0].(*ssa.Call)
+		if !ok || !containsFn(helpers, core.StaticCalleeFn(call)) || len(call.Call.Args) != 3 {
+			continue
+		}
+		isCallTo := func(v ssa.Value, suffix ...string) bool {
+			return core.Derives(v, func(x ssa.Value) bool {
+				cc, ok := x.(*ssa.Call)
+				if !ok {
+					return false
+				}
+				for _, sfx := range suffix {
+					if strings.HasSuffix(core.CalleeID(cc), sfx) || (cc.Call.IsInvoke() && "."+cc.Call.Method.Name() == sfx) {
+						return true
+					}
+				}
+				return false
+			}, core.DeriveOpts{ThroughCalls: true})
+		}
+		okID := isCallTo(call.Call.Args[0], ".Self", ").self", ".ID")
+		okRad := isCallTo(call.Call.Args[1], ".Radius")
+		okKey := false
+		for _, pa := range fn.Params {
+			if call.Call.Args[2] == ssa.Value(pa) {
+				okKey = true
+			}
+		}
+		if okID && okRad && okKey {
+			out = append(out, fn)
+		}
+	}
+	return out
+}
+
 func c06(c *Ctx) {
 	p, r := c.P, c.R
 	r.Technique = "value-flow classification of every uint256 byte decoding by the origin of its operand (database key / XOR distance vs wire radius) against the byte order of the decoder; structural check of every in-range comparison; who-may-write the radius; refusal gate"
@@ -267,6 +314,14 @@ func c06(c *Ctx) {
 					r.Fail("R3.single-helper", core.FuncName(fn)+" private comparison", p.Pos(ci.Pos()), "a radius/distance comparison outside the single in-range helper (the rules can drift apart)")
 				}
 			})
+		}
+		// users that go through a thin wrapper (own id, current radius, the key) are users too
+		for _, wfn := range inRangeWrappers(p) {
+			wc := p.CallersOfFn(wfn)
+			for _, fn := range core.SortedFuncs(wc) {
+				n += len(wc[fn])
+				r.Pass("R3.single-helper", core.FuncName(fn)+" uses helper through "+core.FuncName(wfn), p.Pos(fn.Pos()), fmt.Sprintf("%d call(s)", len(wc[fn])))
+			}
 		}
 		if n < 4 {
 			r.Fail("R3.single-helper", "call sites", "-", fmt.Sprintf("only %d call sites of the in-range helper (offer filtering v0/v1, store RPC, gossip expected)", n))
